@@ -14,7 +14,7 @@ from typing import (
 )
 
 from .._utils import lazy
-from ..exc import ExtensionError, InvalidValue, SDLError
+from ..exc import CoercionError, ExtensionError, InvalidValue, SDLError
 from ..lang import ast as _ast
 from ..schema import (
     SPECIFIED_DIRECTIVES,
@@ -585,7 +585,11 @@ class ASTTypeBuilder:
 def _deprecation_reason(
     node: Union[_ast.FieldDefinition, _ast.EnumValueDefinition]
 ) -> Optional[str]:
-    args = directive_arguments(DeprecatedDirective, node, {})
+    try:
+        args = directive_arguments(DeprecatedDirective, node, {})
+    except CoercionError as err:
+        # e.g. `@deprecated(reason: 42)`: the document is what is wrong.
+        raise SDLError(str(err), err.nodes or [node]) from err
     return args.get("reason", None) if args else None
 
 
